@@ -57,6 +57,15 @@ def translate():
     return rc == 0, out, rep
 
 
+def install_reference_gen():
+    ref, gen = os.path.join(COQ, 'GenRef'), os.path.join(COQ, 'Gen')
+    for f in os.listdir(ref):
+        if f.endswith('.v'):
+            text = open(os.path.join(ref, f)).read()
+            if not os.path.exists(os.path.join(gen, f)) or open(os.path.join(gen, f)).read() != text:
+                open(os.path.join(gen, f), 'w').write(text)
+
+
 def coq_sources():
     src = []
     for d in ('Model', 'Gen', 'Proofs', 'Props'):
